@@ -181,6 +181,77 @@ def from_solver(rng):
     return cfg, results, desc
 
 
+def compare_loaded(ds, results, cfg, bad, counters):
+    """What was loaded against the in-memory result set that was saved: coordinates, labels, every slice (positional and by
+    label), per-slice heights, tower metadata, per-step met values, global attributes.  Also used by vlib.shadow on every file the
+    repository's own tests / examples export."""
+    import numpy as np
+
+    for k_ in ("slices_compared", "sel_lookups", "labels_compared"):
+        counters.setdefault(k_, 0)
+    names = list(results.keys())
+    first = results[names[0]][0]
+    three = first["flx"].ndim == 3
+    nlev = first["flx"].shape[0] if three else 1
+    # ---- coordinates
+    X, Y, Z = first["grid"]
+    x = X[0, 0, :] if three else X[0, :]
+    y = Y[0, :, 0] if three else Y[:, 0]
+    if not bits_equal(ds["x"].values, x) or not bits_equal(ds["y"].values, y):
+        bad("xy_coordinates_changed")
+    if list(ds["tower"].values) != names:
+        bad("tower_names_changed", got=[str(v) for v in ds["tower"].values])
+    exp_ts = [str(r["timestamp"]) for r in results[names[0]]]
+    if [str(v) for v in ds["time"].values] != exp_ts:
+        bad("timestamps_changed", got=[str(v) for v in ds["time"].values], expected=exp_ts)
+    counters["labels_compared"] += len(names) + len(exp_ts)
+    if three:
+        if "z" not in ds.coords or not bits_equal(ds["z"].values, Z[:, 0, 0]):
+            bad("z_coordinate_changed", got=ds["z"].values.tolist() if "z" in ds else None, expected=Z[:, 0, 0].tolist())
+    # ---- fields: positional and by label
+    for ti, nm in enumerate(names):
+        tw = cfg.towers[ti]
+        for k_, attr in (("tower_lat", "lat"), ("tower_lon", "lon"), ("tower_z", "z_m")):
+            got = float(ds[k_].sel(tower=nm).values)
+            counters["labels_compared"] += 1
+            if tw.name != nm or got != float(getattr(tw, attr)):
+                bad("tower_metadata_attached_to_wrong_tower", tower=nm, field=k_, got=got, expected=float(getattr(tw, attr)))
+        for t, r in enumerate(results[nm]):
+            for var, key in (("footprint", "flx"), ("concentration", "conc")):
+                counters["slices_compared"] += nlev
+                pos = ds[var].values[t, ti]
+                if not bits_equal(pos, r[key]):
+                    bad("field_not_bit_identical", var=var, tower=nm, step=t, access="positional",
+                        maxdiff=float(np.nanmax(np.abs(np.asarray(pos, dtype=float) - np.asarray(r[key], dtype=float)))) if pos.shape == np.shape(r[key]) else "shape")
+                sel = ds[var].sel(tower=nm, time=str(r["timestamp"])).values
+                counters["sel_lookups"] += 1
+                if not bits_equal(sel, r[key]):
+                    bad("sel_returns_other_tower_or_step", var=var, tower=nm, step=t)
+            # per-slice height of 3-D outputs
+            if three:
+                zr = r["grid"][2][:, 0, 0]
+                if "level_height" in ds:
+                    got = ds["level_height"].sel(tower=nm, time=str(r["timestamp"])).values
+                else:
+                    got = ds["z"].values
+                if not bits_equal(got, zr):
+                    bad("slice_height_lost", tower=nm, step=t, got=np.asarray(got).tolist(), expected=zr.tolist(),
+                        has_level_height="level_height" in ds)
+            # met values per step
+            if ti == 0:
+                for var in ("ustar", "mol", "wind_speed", "wind_dir"):
+                    exp = r["params"].get(var)
+                    got = float(ds[var].sel(time=str(r["timestamp"])).values)
+                    counters["labels_compared"] += 1
+                    if exp is None:
+                        if not np.isnan(got):
+                            bad("missing_met_value_not_nan", var=var, step=t, got=got)
+                    elif got != float(exp):
+                        bad("met_value_changed_or_misattached", var=var, step=t, got=got, expected=float(exp))
+    if ds.attrs.get("closure") != cfg.solver.closure or float(ds.attrs.get("domain_xmax")) != cfg.domain.xmax or float(ds.attrs.get("domain_ymax")) != cfg.domain.ymax:
+        bad("global_attributes_changed", attrs=dict(ds.attrs))
+
+
 def run_case(case):
     import os
     import warnings
@@ -219,67 +290,7 @@ def run_case(case):
         return {"evals": 1, "nontrivial": True, "sig": str(desc) + str(case["idx"]), "violations": viol, "counters": counters}
     counters["files"] += 1
     try:
-        names = list(results.keys())
-        first = results[names[0]][0]
-        three = first["flx"].ndim == 3
-        nlev = first["flx"].shape[0] if three else 1
-        # ---- coordinates
-        X, Y, Z = first["grid"]
-        x = X[0, 0, :] if three else X[0, :]
-        y = Y[0, :, 0] if three else Y[:, 0]
-        if not bits_equal(ds["x"].values, x) or not bits_equal(ds["y"].values, y):
-            bad("xy_coordinates_changed")
-        if list(ds["tower"].values) != names:
-            bad("tower_names_changed", got=[str(v) for v in ds["tower"].values])
-        exp_ts = [str(r["timestamp"]) for r in results[names[0]]]
-        if [str(v) for v in ds["time"].values] != exp_ts:
-            bad("timestamps_changed", got=[str(v) for v in ds["time"].values], expected=exp_ts)
-        counters["labels_compared"] += len(names) + len(exp_ts)
-        if three:
-            if "z" not in ds.coords or not bits_equal(ds["z"].values, Z[:, 0, 0]):
-                bad("z_coordinate_changed", got=ds["z"].values.tolist() if "z" in ds else None, expected=Z[:, 0, 0].tolist())
-        # ---- fields: positional and by label
-        for ti, nm in enumerate(names):
-            tw = cfg.towers[ti]
-            for k_, attr in (("tower_lat", "lat"), ("tower_lon", "lon"), ("tower_z", "z_m")):
-                got = float(ds[k_].sel(tower=nm).values)
-                counters["labels_compared"] += 1
-                if tw.name != nm or got != float(getattr(tw, attr)):
-                    bad("tower_metadata_attached_to_wrong_tower", tower=nm, field=k_, got=got, expected=float(getattr(tw, attr)))
-            for t, r in enumerate(results[nm]):
-                for var, key in (("footprint", "flx"), ("concentration", "conc")):
-                    counters["slices_compared"] += nlev
-                    pos = ds[var].values[t, ti]
-                    if not bits_equal(pos, r[key]):
-                        bad("field_not_bit_identical", var=var, tower=nm, step=t, access="positional",
-                            maxdiff=float(np.nanmax(np.abs(np.asarray(pos, dtype=float) - np.asarray(r[key], dtype=float)))) if pos.shape == np.shape(r[key]) else "shape")
-                    sel = ds[var].sel(tower=nm, time=str(r["timestamp"])).values
-                    counters["sel_lookups"] += 1
-                    if not bits_equal(sel, r[key]):
-                        bad("sel_returns_other_tower_or_step", var=var, tower=nm, step=t)
-                # per-slice height of 3-D outputs
-                if three:
-                    zr = r["grid"][2][:, 0, 0]
-                    if "level_height" in ds:
-                        got = ds["level_height"].sel(tower=nm, time=str(r["timestamp"])).values
-                    else:
-                        got = ds["z"].values
-                    if not bits_equal(got, zr):
-                        bad("slice_height_lost", tower=nm, step=t, got=np.asarray(got).tolist(), expected=zr.tolist(),
-                            has_level_height="level_height" in ds)
-                # met values per step
-                if ti == 0:
-                    for var in ("ustar", "mol", "wind_speed", "wind_dir"):
-                        exp = r["params"].get(var)
-                        got = float(ds[var].sel(time=str(r["timestamp"])).values)
-                        counters["labels_compared"] += 1
-                        if exp is None:
-                            if not np.isnan(got):
-                                bad("missing_met_value_not_nan", var=var, step=t, got=got)
-                        elif got != float(exp):
-                            bad("met_value_changed_or_misattached", var=var, step=t, got=got, expected=float(exp))
-        if ds.attrs.get("closure") != cfg.solver.closure or float(ds.attrs.get("domain_xmax")) != cfg.domain.xmax or float(ds.attrs.get("domain_ymax")) != cfg.domain.ymax:
-            bad("global_attributes_changed", attrs=dict(ds.attrs))
+        compare_loaded(ds, results, cfg, bad, counters)
     except (KeyError, IndexError, ValueError) as e:  # a label, variable or dimension the saved set has is missing from what was loaded
         bad("loaded_dataset_lacks_labels_of_the_saved_set", exc=f"{type(e).__name__}: {str(e)[:200]}")
     finally:
